@@ -55,7 +55,10 @@ META = {
 }
 
 INITIAL = {1: 10, 2: 20}
-ALPHABET = ['c3', 'c1', 'u1', 'd1']
+# c/u/d: `Cls(id=..)`, `Cls.get(k).v = x`, `Cls.get(k).destroySelf()` inside the body; U/D: assignment / destroySelf on an
+# instance the program obtained BEFORE the call on the hub's connection (by get or from a select)
+ALPHABET = ['c3', 'c1', 'u1', 'd1', 'u2', 'U1', 'D2']
+K_STALE_RB = 'C08:stale-after-rollback:preloaded-instance-assigned-in-body'
 DUP_ID, NF_ID = 1000001, 1000002
 _env = {}
 
@@ -147,9 +150,44 @@ class Worker(threading.Thread):
     def do_ident(self):
         return threading.get_ident()
 
+    def do_preload(self, mode):
+        """instances of rows 1 and 2 on the hub's (plain) connection, obtained by get or out of a select"""
+        hub, cls = self.e['hub'], self.e['cls']
+        hub.getConnection().expireAll()          # the rows were reset behind the ORM's back
+        if mode == 'select':
+            self.pre = dict((o.id, o) for o in cls.select(orderBy='id'))
+        else:
+            self.pre = {1: cls.get(1), 2: cls.get(2)}
+        return sorted(self.pre)
+
+    def do_orm_view(self, skip):
+        """what the ORM shows on the restored connection: the instances held from before the call, and a fresh get"""
+        from sqlobject import SQLObjectNotFound
+        cls = self.e['cls']
+        held, fresh = {}, {}
+        for k, o in sorted(self.pre.items()):
+            if k in skip:
+                continue
+            try:
+                held[k] = o.v
+            except SQLObjectNotFound:
+                held[k] = None
+            except Exception as ex:
+                held[k] = 'error:%s' % type(ex).__name__
+        for k in (1, 2, 3):
+            try:
+                fresh[k] = cls.get(k).v
+            except SQLObjectNotFound:
+                fresh[k] = None
+            except Exception as ex:
+                fresh[k] = 'error:%s' % type(ex).__name__
+        self.pre = {}
+        return held, fresh
+
     def do_run(self, steps, raise_at, exc_obj):
         hub, cls = self.e['hub'], self.e['cls']
         rec = {}
+        pre = getattr(self, 'pre', {})
 
         def probe():
             return dict(self.raw.execute('SELECT id, v FROM %s' % self.e['table']).fetchall())
@@ -164,8 +202,12 @@ class Worker(threading.Thread):
                         cls(id=k, v=v)
                     elif op == 'u':
                         cls.get(k).v = v
-                    else:
+                    elif op == 'd':
                         cls.get(k).destroySelf()
+                    elif op == 'U':
+                        pre[k].v = v
+                    else:
+                        pre[k].destroySelf()
                 if raise_at == len(steps):
                     raise exc_obj
                 rec['raw_inside'] = probe()
@@ -238,7 +280,7 @@ def env():
     path = os.path.join(d, 'c08.db')
     hub = ConnectionHub()
     cls = type('C08Row', (SQLObject,), {'_connection': hub, 'v': IntCol()})
-    conns = [sqlo.file_conn(path) for _ in range(3)]
+    conns = [sqlo.file_conn(path, timeout=0) for _ in range(3)]
     hub.processConnection = conns[0]
     _env.update(dir=d, path=path, hub=hub, cls=cls, conns=conns, table=cls.sqlmeta.table)
     workers = [Worker(t, _env) for t in range(3)]
@@ -282,61 +324,84 @@ def concrete_steps(word):
     out = []
     for pos, sym in enumerate(word):
         op, k = sym[0], int(sym[1:])
-        out.append((op, k, {'c': 30, 'u': 100, 'd': 0}[op] + pos))
+        out.append((op, k, {'c': 30, 'u': 100, 'd': 0, 'U': 200, 'D': 0}[op] + pos))
     return out
 
 
 def step_token(st):
     op, k, v = st
-    return '%s%d' % (op, k) if op == 'd' else '%s%d=%d' % (op, k, v)
+    return '%s%d' % (op, k) if op in 'dD' else '%s%d=%d' % (op, k, v)
 
 
 def reference(steps, raise_at, kind, exc_id):
-    """Python dict reference of the body alone: (final rows or None, exception tag or None)"""
+    """Python dict reference of the body alone: (final rows or None, exception tag or None, steps executed)"""
     rows = dict(INITIAL)
     for i, (op, k, v) in enumerate(steps):
         if raise_at == i:
-            return None, '%s:%d' % (kind, exc_id)
+            return None, '%s:%d' % (kind, exc_id), i
         if op == 'c':
             if k in rows:
-                return None, 'E:%d' % DUP_ID
+                return None, 'E:%d' % DUP_ID, i
             rows[k] = v
         elif op == 'u':
             if k not in rows:
-                return None, 'E:%d' % NF_ID
+                return None, 'E:%d' % NF_ID, i
             rows[k] = v
-        else:
+        elif op == 'd':
             if k not in rows:
-                return None, 'E:%d' % NF_ID
+                return None, 'E:%d' % NF_ID, i
             del rows[k]
+        elif op == 'U':
+            if k in rows:
+                rows[k] = v
+        else:
+            rows.pop(k, None)
     if raise_at == len(steps):
-        return None, '%s:%d' % (kind, exc_id)
-    return rows, None
+        return None, '%s:%d' % (kind, exc_id), len(steps)
+    return rows, None, len(steps)
 
 
 def gen_cases(ctx):
+    """(cfg, autoCommit, how the pre-loaded instances were obtained, body, raise point, kind)"""
     thorough = ctx.tier == 'thorough'
-    full_upto = 4 if thorough else 3
-    maxlen = 5 if thorough else 4
     combos = [(cfg, ac) for cfg in CONFIGS for ac, _ in AUTOCOMMITS]
+    modes = ['get', 'select']
     cases = []
     n = 0
     import glob
     import json
     for path in sorted(glob.glob(os.path.join(os.path.dirname(os.path.dirname(os.path.abspath(__file__))), 'corpus', 'C08', '*.json'))):
         for c in json.load(open(path)).get('cases', []):
-            cases.append((c['cfg'], c['ac'], tuple(c['word']), c['raise_after'], c['kind']))
-    for ln in range(0, maxlen + 1):
+            cases.append((c['cfg'], c['ac'], c.get('mode', 'get'), tuple(c['word']), c['raise_after'], c['kind']))
+    for ln in range(0, (5 if thorough else 4) + 1):
         for word in itertools.product(ALPHABET, repeat=ln):
             points = [(None, None)] + [(k, kind) for k in range(ln + 1) for kind in 'EK']
             for (ra, kind) in points:
-                for (cfg, ac) in (combos if ln <= full_upto else [combos[n % len(combos)]]):
-                    cases.append((cfg, ac, word, ra, kind))
                 n += 1
+                if ln <= 1 or (thorough and ln <= 2):
+                    sel = [(c, m) for c in combos for m in modes]                         # full product
+                elif ln == 2 or (thorough and ln == 3):
+                    sel = [((cfg, AUTOCOMMITS[(n + i) % 3][0]), modes[(n + i) % 2]) for i, cfg in enumerate(CONFIGS)]
+                elif ln == 3 or (thorough and ln == 4):
+                    sel = [(combos[n % 12], modes[n % 2])]
+                else:
+                    # the longest bodies: a fixed fifth of them (all raise points), configuration rotating
+                    if (hash_word(word) + (0 if thorough else 0)) % 5 != 0:
+                        continue
+                    sel = [(combos[n % 12], modes[(n // 12) % 2])]
+                for (cfg, ac), mode in sel:
+                    cases.append((cfg, ac, mode, word, ra, kind))
     # grouped by configuration so that the hub is re-bound rarely
     order = {c: i for i, c in enumerate(combos)}
     cases.sort(key=lambda c: order[(c[0], c[1])])
     return cases
+
+
+def hash_word(word):
+    h = 0
+    for sym in word:
+        h = h * 7 + ALPHABET.index(sym)
+    return h
 
 
 def inuse(e):
@@ -359,22 +424,39 @@ def pool_mode(e, cfg):
     return ll.isolation_level is None
 
 
+_known_seen = [0]
+
+
+def known_once(ctx, what, desc):
+    """the recorded finding is reported once per run (the framework keeps a bounded list of failures)"""
+    _known_seen[0] += 1
+    if _known_seen[0] == 1:
+        ctx.oracle_fail(K_STALE_RB, what, desc)
+
+
 def run_case(ctx, e, case, idx, model_out):
-    cfg, ac, word, ra, kind = case
+    cfg, ac, mode, word, ra, kind = case
     steps = concrete_steps(word)
     exc_id = 5 + idx % 90
     exc_obj = None
     if ra is not None:
         classes = E_CLASSES if kind == 'E' else K_CLASSES
         exc_obj = classes[idx % len(classes)]('case %d' % idx)
-    desc = {'cfg': cfg, 'ac': ac, 'steps': [step_token(s) for s in steps],
+    desc = {'cfg': cfg, 'ac': ac, 'preloaded_by': mode, 'steps': [step_token(s) for s in steps],
             'raise_after': ra, 'exception': type(exc_obj).__name__ if exc_obj is not None else None}
-    key = 'C08:%s:ac%s:%s:%s' % (cfg, ac, ','.join(word) or '-', '-' if ra is None else '%d%s' % (ra, kind))
+    key = 'C08:%s:ac%s:%s:%s:%s' % (cfg, ac, mode, ','.join(word) or '-', '-' if ra is None else '%d%s' % (ra, kind))
     if e.get('configured') != (cfg, ac):
         configure(e, cfg, dict(AUTOCOMMITS)[ac])
         e['configured'] = (cfg, ac)
     reset_db(e)
     caller = e['workers'][1]
+    # the program's own instances of rows 1 and 2, obtained on the hub's connection before the call (plain ORM use needs
+    # autoCommit on; the call itself runs under the case's setting)
+    for c in e['conns']:
+        c.autoCommit = True
+    caller.call('preload', mode)
+    for c in e['conns']:
+        c.autoCommit = dict(AUTOCOMMITS)[ac]
     before = observe_hub(e)
     res = caller.call('run', steps, ra, exc_obj)
     rows1 = raw_rows(e)
@@ -387,15 +469,20 @@ def run_case(ctx, e, case, idx, model_out):
     rows2 = raw_rows(e)
     use2 = inuse(e)
     made2 = [c._connectionCount for c in e['conns']]
-    mode = pool_mode(e, cfg)
+    pmode = pool_mode(e, cfg)
     lock_free = True
     try:
         e['raw'].execute('BEGIN IMMEDIATE')
         e['raw'].execute('ROLLBACK')
     except sqlite3.OperationalError:
         lock_free = False
+    for c in e['conns']:
+        c.autoCommit = True
+    held, fresh = caller.call('orm_view', [2] if 'D2' in word else [])
+    for c in e['conns']:
+        c.autoCommit = dict(AUTOCOMMITS)[ac]
     # ---- oracle
-    want_rows, want_exc = reference(steps, ra, kind, exc_id)
+    want_rows, want_exc, executed = reference(steps, ra, kind, exc_id)
     if res['outcome'] == 'returned':
         tag = 'returned %s' % res['value']
     else:
@@ -425,6 +512,23 @@ def run_case(ctx, e, case, idx, model_out):
         if rows1 != INITIAL or rows2 != INITIAL:
             ctx.oracle_fail(key + ':not-nothing', 'the body raised %s; committed rows are%s /%s, expected the initial%s'
                             % (want_exc, fmt_rows(rows1), fmt_rows(rows2), fmt_rows(INITIAL)), desc)
+    # through the ORM on the restored connection: the instances the program held from before the call, and a fresh get
+    for k, v in sorted(held.items()):
+        if v != rows2.get(k):
+            if want_exc is not None and any(op == 'U' and kk == k for (op, kk, _) in steps[:executed]):
+                known_once(ctx, 'after the rolled-back doInTransaction the instance of row %d that the body assigned to still '
+                           'shows %s; the row holds %s' % (k, v, rows2.get(k)), desc)
+            else:
+                ctx.oracle_fail(key + ':orm-stale-held', 'after doInTransaction the instance of row %d held from before the call (obtained '
+                                'by %s) shows %s on the restored connection; the row holds %s' % (k, mode, v, rows2.get(k)), desc)
+    for k, v in sorted(fresh.items()):
+        if v != rows2.get(k):
+            if want_exc is not None and any(op == 'U' and kk == k for (op, kk, _) in steps[:executed]):
+                known_once(ctx, 'after the rolled-back doInTransaction get(%d) on the restored connection shows %s; the row '
+                           'holds %s' % (k, v, rows2.get(k)), desc)
+            else:
+                ctx.oracle_fail(key + ':orm-stale-fresh', 'after doInTransaction get(%d) on the restored connection shows %s; the row holds %s'
+                                % (k, v, rows2.get(k)), desc)
     if hub1 != before:
         ctx.oracle_fail(key + ':hub', 'hub attributes / resolution per thread were [%s], afterwards [%s]' % (before, hub1), desc)
     if any(use2):
@@ -432,15 +536,15 @@ def run_case(ctx, e, case, idx, model_out):
     if made2 != e['made']:
         ctx.oracle_fail(key + ':pool-growth', 'new low-level connections were opened by a repeated call: %s -> %s' % (e['made'], made2), desc)
         e['made'] = made2
-    if mode is not None and mode != bool(dict(AUTOCOMMITS)[ac]):
+    if pmode is not None and pmode != bool(dict(AUTOCOMMITS)[ac]):
         ctx.oracle_fail(key + ':pool-mode', 'the pooled low-level connection is left with autocommit=%s although connection.autoCommit=%r'
-                        % (mode, dict(AUTOCOMMITS)[ac]), desc)
+                        % (pmode, dict(AUTOCOMMITS)[ac]), desc)
     if not lock_free:
         ctx.oracle_fail(key + ':lock', 'the database write lock is still held after doInTransaction', desc)
     # ---- correspondence
     impl = '%s | db%s | hub %s | inuse %s zombies %d | collected inuse %s auto %s db%s' % (
         tag, fmt_rows(rows1), hub1, ','.join(str(x) for x in use1), sum(use1), ','.join(str(x) for x in use2),
-        'true' if (mode if mode is not None else bool(dict(AUTOCOMMITS)[ac])) else 'false', fmt_rows(rows2))
+        'true' if (pmode if pmode is not None else bool(dict(AUTOCOMMITS)[ac])) else 'false', fmt_rows(rows2))
     ctx.compare('doInTransaction outcome / committed rows / hub attributes / pool: model = implementation', desc, model_out, impl)
 
 
@@ -456,6 +560,7 @@ def repeated_calls(ctx, e, only=None):
             snap = (len(conn._pool), conn._connectionCount)
             for i in range(3):
                 reset_db(e)
+                e['workers'][1].pre = {}
                 e['workers'][1].call('run', concrete_steps(('u1',)), None, None)
                 e['workers'][1].call('collect')
             now = (len(conn._pool), conn._connectionCount)
@@ -468,7 +573,7 @@ def repeated_calls(ctx, e, only=None):
 
 
 def line_for(case, idx):
-    cfg, ac, word, ra, kind = case
+    cfg, ac, mode, word, ra, kind = case
     steps = concrete_steps(word)
     return '%s %s %s %s' % (cfg, ac, ','.join(step_token(s) for s in steps) or '-',
                             '-' if ra is None else '%d:%s:%d' % (ra, kind, 5 + idx % 90))
@@ -476,6 +581,7 @@ def line_for(case, idx):
 
 def run(ctx):
     e = env()
+    _known_seen[0] = 0
     cases = gen_cases(ctx)
     outs = ctx.model([line_for(c, i) for i, c in enumerate(cases)])
     for i, c in enumerate(cases):
@@ -508,5 +614,5 @@ def replay(case):
     kind = None
     if case.get('exception'):
         kind = 'E' if case['exception'] in [c.__name__ for c in E_CLASSES] else 'K'
-    run_case(d, e, (case['cfg'], case['ac'], word, case['raise_after'], kind), 0, None)
+    run_case(d, e, (case['cfg'], case['ac'], case.get('preloaded_by', 'get'), word, case['raise_after'], kind), 0, None)
     return not d.fails, '\n'.join(d.fails) or 'property holds on this case'
